@@ -44,7 +44,10 @@ fn call(rule: &Value, data: &Value) -> (String, String) {
 /// comparisons through to_string, numeric folds) where the node-level scheduler of E1 cannot preempt.
 fn leaf_heavy(rng: &mut prng::Rng, variant: u64) -> Value {
     let arr = |rng: &mut prng::Rng| Value::Array((0..rng.range(2, 4)).map(|_| gen::atom(rng)).collect());
-    match variant % 9 {
+    match variant % 12 {
+        9 => json!({"cat": [{"var": "o.x"}, {"var": "o.x"}, {"var": "o.x"}, {"var": "o.x"}]}),
+        10 => json!({"+": [{"var": "p.y"}, {"var": "p.y"}, {"var": "p.y"}, {"var": "o.x"}]}),
+        11 => json!({"missing": ["o.x", "p.y", "o.z", "p.y", "q.w.e", "o.x"]}),
         0 => json!({"cat": [gen::atom(rng), arr(rng), gen::atom(rng), {"var": "a"}, "x"]}),
         1 => json!({"==": [arr(rng), {"cat": [{"var": "b"}, ""]}]}),
         2 => json!({"<": [arr(rng), arr(rng)]}),
@@ -71,7 +74,7 @@ fn main() {
     for i in 0..k {
         // the leaf-heavy variants are cycled through by the workload seed, so a handful of workloads covers them all
         let rule = if i < 3 { leaf_heavy(&mut rng, seed * 3 + i as u64) } else { gen::rule(&mut rng, 2) };
-        let data = json!({"a": gen::atom(&mut rng), "b": gen::atom(&mut rng), "c": [gen::atom(&mut rng), "s", 3, gen::atom(&mut rng)]});
+        let data = json!({"a": gen::atom(&mut rng), "b": gen::atom(&mut rng), "c": [gen::atom(&mut rng), "s", 3, gen::atom(&mut rng)], "o": {"x": 1}, "p": {"y": 2}});
         pool.push((rule, data));
     }
     // expected outcomes, computed before any other thread exists
@@ -114,7 +117,7 @@ fn main() {
     let mut rng2 = prng::Rng::new(prng::mix(seed, &[3, 3]));
     for i in 0..k {
         let rule = if i < 3 { leaf_heavy(&mut rng2, seed * 3 + i as u64) } else { gen::rule(&mut rng2, 2) };
-        let data = json!({"a": gen::atom(&mut rng2), "b": gen::atom(&mut rng2), "c": [gen::atom(&mut rng2), "s", 3, gen::atom(&mut rng2)]});
+        let data = json!({"a": gen::atom(&mut rng2), "b": gen::atom(&mut rng2), "c": [gen::atom(&mut rng2), "s", 3, gen::atom(&mut rng2)], "o": {"x": 1}, "p": {"y": 2}});
         if rule != pool[i].0 || data != pool[i].1 {
             println!("MISMATCH input {} was modified", i);
             failed = true;
